@@ -5,7 +5,7 @@ from harness.props._common import run_eval, replay_eval
 
 PROPS_FILE = "P_C11"
 GEN_FILES = ["Gen_width"]
-COQ_TARGETS = ["CaseLib"]
+COQ_TARGETS = ["CaseLib", "TopDownModel"]
 RULE = ("translation validation: declared widths, default split and the add_register allocation count regenerated from the source "
         "(Gen_width) are evaluated in Coq and compared with gate.num_qubits and gate.definition.num_qubits for every (n, s), "
         "n <= 7/9 (circuits of up to hundreds of qubits are built, not simulated); direct evaluation (harness/props/c11_eval.py): "
@@ -54,8 +54,49 @@ def tv(ctx):
     run_bool_cases(ctx, "c11_width", HEADER, lines, cases, on_fail, shard=200)
 
 
+def split_n_correspondence(ctx):
+    """With split = n the bidirectional circuit must be the top-down circuit (no ancilla, no global phase): its flattened gate
+    list is compared, inside Coq, with TopDownModel.topdown_q run on the logged angle tree, so C01's theorems
+    (C01_topdown_model / C01_topdown_prepares_state) give 'equals the vector up to a global phase'."""
+    from fractions import Fraction
+    from qclib.state_preparation import BdspInitialize
+    from qclib.state_preparation.util.state_tree_preparation import Amplitude, state_decomposition
+    from qclib.state_preparation.util.angle_tree_preparation import create_angles_tree
+    from harness.flatten import flatten, coq_q, coq_list
+    from harness.props import c01
+    nmax = 5 if ctx.quick else 8
+    cases, lines = [], []
+    for n in range(1, nmax + 1):
+        for kind in c01.KINDS:
+            v = c01.vector(ctx.rng, n, kind)
+            g = BdspInitialize(v, opt_params={"split": n})
+            fl, phase = flatten(g.definition)
+            at = create_angles_tree(state_decomposition(n, [Amplitude(i, a) for i, a in enumerate(v)]))
+            ys, zs = c01.levels_of(at)
+            items = []
+            for name, qs, op in fl:
+                if name in ("ry", "rz"):
+                    items.append(f"PRot {'RotY' if name == 'ry' else 'RotZ'} {coq_q(Fraction(float(op.params[0])))} {qs[0]}")
+                elif name == "cx":
+                    items.append(f"PEnt EntCX {qs[0]} {qs[1]}")
+                else:
+                    items.append("PEnt EntCZ 99999 99999")
+            yq = coq_list([coq_list([coq_q(Fraction(a)) for a in lv]) for lv in ys])
+            zq = coq_list([coq_list([coq_q(Fraction(a)) for a in lv]) for lv in zs])
+            cases.append({"class": "BdspInitialize", "n": n, "split": n, "family": kind})
+            ctx.count("corr:bdsp_split_n:" + kind, key=("bdsp_n", n, kind, v.tobytes()), nontrivial=n >= 2,
+                      sample={"n": n, "family": kind, "gates": len(fl)} if n == 3 else None)
+            lines.append(f"(list_eqb (pgate_close (1 # 1000000000000)) (topdown_q {n} {yq} {zq}) {coq_list(items)})")
+            if g.definition.num_qubits != n or abs(phase) > 1e-12:
+                ctx.mismatch("C11: BdspInitialize(split=n) uses ancillas or a global phase", cases[-1])
+    run_bool_cases(ctx, "c11_split_n", c01.HEADER, lines, cases,
+                   lambda c: ctx.mismatch("C11 correspondence: BdspInitialize(split=n) differs from the top-down model on its own angle tree", c),
+                   shard=15)
+
+
 def run(ctx):
     tv(ctx)
+    split_n_correspondence(ctx)
     run_eval(ctx, "C11")
 
 
